@@ -20,7 +20,7 @@ INT_RINGS = [s + "_" + c for s, cs in [("i8", ["i8", "u8", "i16", "u16"]), ("u8"
 FLT_RINGS = ["f_f", "f_d", "d_d"]
 BAL_RINGS = ["bi32", "bi64", "bf", "bd"]
 EXT_RINGS = ["ef", "ed"]
-BIG_RINGS = ["zz", "ru6_6", "ru6_7", "ru7_7", "ru7_8", "ru8_8", "ru8_9", "ri7_7"]
+BIG_RINGS = ["zz", "ru6_6", "ru6_7", "ru7_7", "ru7_8", "ru8_8", "ru8_9", "ri7_7", "ri6_6", "ri6_7", "ri7_8", "ri8_8"]
 LOG_RINGS = ["log16"]          # prime moduli only (table of powers of a generator)
 ALL_RINGS = INT_RINGS + FLT_RINGS + BAL_RINGS + EXT_RINGS + BIG_RINGS + LOG_RINGS
 
@@ -262,8 +262,8 @@ def reduce_operand(ring, p, x):
             sr = (-(1 << 63) + 1, (1 << 63) - 1)
         elif ring.startswith("ru"):
             sr = (0, (1 << (1 << int(ring[2]))) - 1)
-        elif ring == "ri7_7":
-            sr = (0, (1 << 127) - 1)
+        elif ring.startswith("ri"):
+            sr = (-(1 << ((1 << int(ring[2])) - 1)) + 1, (1 << ((1 << int(ring[2])) - 1)) - 1)
         elif ring in LOG_RINGS:
             sr = (-(1 << 31) + 1, (1 << 31) - 1)
         else:
@@ -519,8 +519,13 @@ def gen_cases(rng, ring, p, per, cases):
             if ring.startswith("ru"):
                 K = int(ring[2])
                 xs = [x for x in xs if x < (1 << (1 << K))] + [(1 << (1 << K)) - 1]
-            if ring == "ri7_7":
-                xs = [x for x in xs if x < (1 << 127)] + [(1 << 127) - 1]
+            if ring.startswith("ri"):       # signed RecInt: negative values are elements of the storage type
+                top = (1 << ((1 << int(ring[2])) - 1)) - 1
+                xs = [x for x in xs if x <= top] + [top, -top, -1, -p, -p - 1, -p + 1, -2 * p, -(p * p - 1) if p * p - 1 <= top else -3 * p,
+                                                    -rng.range(0, min(top, p * p))]
+                xs = [x for x in xs if -top <= x <= top]
+            if ring == "zz":                # Integer: any sign
+                xs += [-1, -p, -p - 1, -p + 1, -2 * p, -(p * p - 1), -rng.range(0, p * p), -(1 << 300) + 1]
             if ring in LOG_RINGS:     # no reduce(): init(int32_t) is the reduction
                 xs = [x for x in xs if x < (1 << 31)] + [-1, -p, -p - 1, (1 << 31) - 1, -(1 << 31) + 1, rng.range(-(1 << 31) + 1, (1 << 31) - 1)]
         for x in xs:
@@ -559,6 +564,17 @@ def write_params(info):
             k, k2 = int(ring[2]), int(ring.split("_")[1])
             rows.append("(%d, %s, min_%s, max_%s)" % (1 << k, "true" if k2 > k else "false", ring, ring))
     lines.append("Definition advertised_ru : list (Z * bool * Z * Z) :=\n  [" + ";\n   ".join(rows) + "].")
+    # the Veltkamp splitting constants of ModularExtended::split (modular-extended.h), read from the current source:
+    # c = (Element)((1 << S)+1) for double / float.  0 = not found (ProofsTop2.split_constants_ok then fails).
+    shifts = {"double": 0, "float": 0}
+    try:
+        src = open(os.path.join(vf.REPO, ANCHOR_DIR, "modular-extended.h"), errors="replace").read()
+        for ty, sh in re.findall(r"is_same<Element,\s*(double|float)>::value\)\s*\{\s*c\s*=\s*\(Element\)\(\(1\s*<<\s*(\d+)\)\s*\+\s*1\)\s*;", src):
+            shifts[ty] = int(sh)
+    except OSError:
+        pass
+    lines.append("Definition split_shift_double : Z := %d." % shifts["double"])
+    lines.append("Definition split_shift_float : Z := %d." % shifts["float"])
     txt = "\n".join(lines) + "\n"
     return vf.write_if_changed(os.path.join(vf.coq_dir(AREA), "Params.v"), txt)
 
